@@ -1448,6 +1448,47 @@ func vfGenNested(r *vfRand) *vfProg {
 	return &vfProg{kind: "nested", code: a.bytes(), aux: aux, input: vfGenInput(r), storage: vfGenStorage(r), gas: uint64(r.Pick(3000000, 3000000, 150000)), value: uint64(r.Intn(2) * 50)}
 }
 
+// Two DIFFERENT codes in one call tree that both jump: A jumps over its own push data, then runs
+// B's code via DELEGATECALL / CALLCODE (or CALL / STATICCALL as controls); B jumps to a JUMPDEST
+// whose offset lies inside A's push-data range, or far beyond A's length. The jump-destination
+// analysis is cached per code hash and shared down the call tree: each code must be judged by its
+// own bitmap (seeded change C10_d: the borrowed code labelled with the caller's code hash).
+func vfGenJumpyDelegate(r *vfRand) *vfProg {
+	n := r.Pick(7, 20, 32)
+	data := r.Bytes(n)
+	for i := range data {
+		if r.Chance(30) {
+			data[i] = 0x5b
+		}
+	}
+	// A: PUSH1 L1 JUMP PUSHn <data> JUMPDEST ...
+	l1 := 3 + 1 + n
+	codeA := []byte{0x60, byte(l1), 0x56, byte(0x60 + n - 1)}
+	codeA = append(codeA, data...)
+	codeA = append(codeA, 0x5b)
+	a := vfNewAsm()
+	callOp := byte(r.Pick(0xf4, 0xf4, 0xf2, 0xf2, 0xf1, 0xfa))
+	vfEmitCall(r, a, vfAddrB, callOp)
+	a.pushU(2).op(0x55) // success flag -> slot 2
+	if r.Chance(40) {
+		// A jumps again afterwards, into the middle of its own push data (must fail) or to its JUMPDEST
+		a.pushU(uint64(r.Pick(l1, 4+r.Intn(n), 4+r.Intn(n)))).op(0x56)
+	}
+	a.pushU(64).pushU(0).op(0xf3)
+	codeA = append(codeA, a.bytes()...)
+	// B: PUSH2 L2 JUMP <filler> JUMPDEST PUSH1 7 PUSH1 9 SSTORE PUSH1 42 PUSH1 0 MSTORE PUSH1 32 PUSH1 0 RETURN
+	l2 := 4 + r.Intn(n+2)
+	if r.Chance(20) {
+		l2 = r.Pick(100, 300, 1000)
+	}
+	codeB := []byte{0x61, byte(l2 >> 8), byte(l2), 0x56}
+	for len(codeB) < l2 {
+		codeB = append(codeB, 0x00)
+	}
+	codeB = append(codeB, 0x5b, 0x60, 0x07, 0x60, 0x09, 0x55, 0x60, 0x2a, 0x60, 0x00, 0x52, 0x60, 0x20, 0x60, 0x00, 0xf3)
+	return &vfProg{kind: "jumpy-delegate", code: codeA, aux: map[byte][]byte{vfAddrB: codeB}, input: vfGenInput(r), storage: vfGenStorage(r), gas: 3000000}
+}
+
 // CREATE / CREATE2 from memory and top-level creation
 func vfGenCreate(r *vfRand) *vfProg {
 	init := vfNewAsm()
@@ -1821,8 +1862,10 @@ func TestVerifC10(t *testing.T) {
 			p = vfGenDataOff(r)
 		case k < 84:
 			p = vfGenJump(r)
-		case k < 91:
+		case k < 89:
 			p = vfGenNested(r)
+		case k < 91:
+			p = vfGenJumpyDelegate(r)
 		case k < 96:
 			p = vfGenCreate(r)
 		default:
